@@ -54,6 +54,7 @@ LEAVES = {
     "ed448": ("leaf_ed448.pem", "leaf_ed448.key", []),
     "chain2": ("leaf_ica.pem", "leaf_ed25519.key", ["ica.pem"]),
     "chain3": ("leaf_chain.pem", "leaf_ed25519.key", ["ica2.pem", "ica.pem"]),
+    "chain3-noica": ("leaf_chain.pem", "leaf_ed25519.key", ["ica.pem"]),
     "wrongname": ("leaf_wrongname.pem", "leaf_ed25519.key", []),
     "expired": ("leaf_expired.pem", "leaf_ed25519.key", []),
     "notyet": ("leaf_notyet.pem", "leaf_ed25519.key", []),
